@@ -1635,6 +1635,28 @@ pub mod skip {
             })
         })
     }
+
+    /// `format_snippet(text, config, is_macro_def)` (lib.rs): the formatted text and its
+    /// non-formatted ranges.
+    pub fn format_snippet_raw(
+        text: &str,
+        config: &Config,
+        is_macro_def: bool,
+    ) -> Option<(String, Vec<(usize, usize)>)> {
+        crate::format_snippet(text, config, is_macro_def)
+            .map(|f| (f.snippet, f.non_formatted_ranges))
+    }
+
+    /// `format_code_block(code, config, is_macro_def)` (lib.rs): the code wrapped in `fn main()`,
+    /// formatted and unwrapped again, and its non-formatted ranges.
+    pub fn format_code_block_raw(
+        code: &str,
+        config: &Config,
+        is_macro_def: bool,
+    ) -> Option<(String, Vec<(usize, usize)>)> {
+        crate::format_code_block(code, config, is_macro_def)
+            .map(|f| (f.snippet, f.non_formatted_ranges))
+    }
 }
 
 /// Newline conversion (`formatting/newline_style.rs`), trailing-blank removal (`utils.rs`) and
